@@ -5,7 +5,7 @@
    guard / the twice-unrolled cycle / the construct guard) the recursion only descends structurally; a Ref
    jumps to a node found by find_id, which carries an id; a node with an id that may still recurse pushes
    it.  Measure: lexicographic on (ids of root that may still be pushed, height of the current node). *)
-From Skv Require Import PyStrFacts Node GetTree Unsafe Walk Construct NodeInd Fuel TreeIds GraphAudit.
+From Skv Require Import PyStrFacts Node GetTree Unsafe Walk WalkFacts Construct NodeInd Fuel TreeIds GraphAudit.
 From Coq Require Import Lia.
 Local Open Scope nat_scope.
 
@@ -450,18 +450,7 @@ Proof.
   apply nofuel_raise. intros ->. apply N. reflexivity.
 Qed.
 
-(* _traverse_tree adds only its own ValueError / StopIteration to what the generator raised *)
-Lemma traverse_raise sh : forall rows prev tail e,
-  traverse sh prev rows tail = Raise e -> e = EValue \/ tail = Some e.
-Proof.
-  induction rows as [|r rs IH]; intros prev tail e H; cbn [traverse] in H.
-  - destruct tail as [e'|]; [injection H as ->; right; reflexivity | discriminate H].
-  - destruct (negb (visible sh r)); [eapply IH; exact H|].
-    destruct (Nat.ltb (S prev) (r_level r)); [injection H as <-; left; reflexivity|].
-    destruct (traverse sh (r_level r) rs tail) as [rest|e'] eqn:Tr; cbn [bind] in H; [discriminate H|].
-    injection H as ->. eapply IH; exact Tr.
-Qed.
-
+(* _traverse_tree adds only its own ValueError / StopIteration to what the generator raised (WalkFacts.traverse_raise) *)
 Theorem visualize_nofuel E skipped schema T sh t m :
   root_tree E schema = Ok (t, m) -> audit_fits t -> walk_fits t ->
   nofuel (visualize E skipped schema T sh).
@@ -470,7 +459,7 @@ Proof.
   unfold visualize. rewrite VS. cbn [bind]. unfold traverse_all.
   destruct (fst st) as [|r rs].
   - destruct (snd st) as [e|]; apply nofuel_raise; [intros ->; apply N; reflexivity | discriminate].
-  - destruct (traverse sh (r_level r) rs (snd st)) as [rest|e] eqn:Tr; cbn [bind]; [apply nofuel_ok|].
+  - destruct (traverse sh (r_level r) None rs (snd st)) as [rest|e] eqn:Tr; cbn [bind]; [apply nofuel_ok|].
     apply nofuel_raise. intros ->. apply traverse_raise in Tr as [X|X]; [discriminate X | apply N; exact X].
 Qed.
 
